@@ -6,7 +6,7 @@ from hexlib import _nib
 from trie.iter import NodeIterator
 
 ID = "C10"
-LEAN_IMPORTS = ["PyTrie.Props.C10"]
+LEAN_IMPORTS = ["PyTrie.Props.C10", "PyTrie.Props.RawLevel"]
 THEOREMS = [
     "PyTrie.Props.C10.plt_nibs",
     "PyTrie.Props.C10.stored_path_is_key",
@@ -19,6 +19,8 @@ THEOREMS = [
     "PyTrie.Props.C10.nodes_preorder",
     "PyTrie.Props.C10.nodes_complete",
     "PyTrie.Props.C10.nodes_loop_is_preorder",
+    "PyTrie.Props.Raw.next_key_refines",
+    "PyTrie.Props.Raw.key_after_refines",
 ]
 RULE = ("tries built by generated histories (keys that are prefixes of other keys, the empty key, embedded nodes, values on "
         "branches, children 0 and 15); keys()/items()/values()/nodes() sequences and next(k) for every stored key, its "
